@@ -84,6 +84,7 @@ claim("C14",
   "NOT covered: more than one preemption, Close concurrent with traffic on the raw memory (use-after-unmap), a really killed process, real /proc census, the /dev/shm file back-end; OS model: Mmap of the same fd yields the same region, descriptors received over the socket are modelled as extra references; in the session model the queue memory is harness memory (unmap stubbed)",
   "DESIGN.md 15.3/C14")
 CLAIM_EXTRA = {
+ "C15": " Two callers at once (H_C15_parallel, conflicting-access check with happens-before through locks and atomics): one pool operation by each of two callers (get a fresh or pooled stream, put back, put back and get) touches no pointer-like Go-heap location or map in conflict unless the accesses are ordered by a lock hand-over (a stream one caller puts into the pool and the other takes out).",
  "C07": " Two streams at once (H_C07_parallel, conflicting-access check): one operation on each of two streams of a session (client flush through shared memory or the socket fallback, server read, client close, server answer, server close; all 25 pairs, three degrees of memory exhaustion) touch no pointer-like Go-heap location or map in conflict without a common lock or atomic access.",
  "C13": " Handshake phase (H_C13_handshake, goroutines as coroutines over the socket model of C12): the real newSession of a server or of a memfd client reads an arbitrary byte string (every byte symbolic; up to 8 bytes, i.e. one header, or a well-formed protocol 2 / protocol 3 header sequence followed by up to 9 arbitrary body bytes; whole or in two pieces) and then end of file: nothing panics and the call returns. One more genuine defect found and fixed (F-HSLEN: short share-memory event bodies crashed the handshake goroutine).",
  "C05": " Stalled send loop (H_C05_slowsend, goroutines as coroutines with the time model): the control connection is busy and sendCh is full while a producer's wake-up waits in the slow path of wakeUpPeer for longer than any time-out; then the connection gets free and the real Session.send loop writes what was queued: every producer returns, nothing is stranded at quiescence, a later element is announced too.",
